@@ -31,7 +31,7 @@ ASSUMPTIONS = [
 ]
 FLOORS = {
     "quick": {"eval:line_coordinates": 20000, "eval:grid_coordinates": 1500, "eval:spacing_to_size": 20000,
-              "eval:profile_coordinates": 100, "eval:shape_to_spacing": 100, "distinct_nontrivial": 5000, "class:long_line": 100, "class:long_line_50k": 15, "eval:ownership": 350, "eval:arguments_unmodified": 40000, "class:ndarray_shape_and_region": 50, "class:near_tie_not_at_tie": 100, "class:extra_coords_repeated_values": 60, "class:profile_extreme_magnitude": 40, "class:grid_near_tie": 50},
+              "eval:profile_coordinates": 100, "eval:shape_to_spacing": 100, "distinct_nontrivial": 5000, "class:long_line": 100, "class:long_line_50k": 15, "eval:ownership": 350, "eval:arguments_unmodified": 40000, "class:ndarray_shape_and_region": 50, "class:near_tie_not_at_tie": 100, "class:size_with_adjust_spelled": 800, "class:extra_coords_repeated_values": 60, "class:profile_extreme_magnitude": 40, "class:grid_near_tie": 50},
     "thorough": {"eval:line_coordinates": 200000, "eval:grid_coordinates": 10000, "distinct_nontrivial": 50000},
 }
 JOBS = {"quick": 1, "thorough": 16}
@@ -364,6 +364,10 @@ def run_case(run, tap, stream, index, rng):
             vc.grid_coordinates((start, stop, start, stop), spacing=spacing)
             size = int(rng.integers(1, 41))
             vc.line_coordinates(start, stop, size=size, pixel_register=pixel)
+            # `adjust` is documented as ignored when a size / shape is given: every combination must still return the count asked for
+            vc.line_coordinates(start, stop, size=size, adjust=adjust, pixel_register=pixel)
+            vc.grid_coordinates((start, stop, start, stop), shape=(size, max(1, size // 2)), adjust="region", pixel_register=True, meshgrid=bool(rng.random() < 0.5))
+            run.count("class:size_with_adjust_spelled")
         run.sample("random_line", {"start": start, "stop": stop, "spacing": spacing, "adjust": adjust, "pixel_register": pixel, "n_nodes": int(vals.size)})
     elif stream == "long_line":
         # many intervals: relative tolerances that are harmless for ten nodes become whole spacings for 1e4..3e5 nodes
